@@ -1,1 +1,3 @@
+import PynProps.C01
+import PynProps.C02
 import PynProps.C03
